@@ -276,7 +276,8 @@ class RecordHistory(Engine):
                 ops.append({"op": kind, "loc": parts, "overlap": rng.random() < 0.5})
             else:
                 ops.append({"op": kind})
-        return {"length": length, "circular": circular, "ops": ops, "finalise": rng.random() < 0.7}
+        return {"length": length, "circular": circular, "ops": ops, "finalise": rng.random() < 0.7,
+                "salt": rng.choice([0, rng.randrange(1, 1 << 30)])}
 
     # ------------------------------------------------------------ execution
     def execute(self, scenario: Dict[str, Any], prop: str) -> RunResult:
@@ -372,6 +373,10 @@ class _Execution:
     """ Interprets one scenario against a real Record and the model """
 
     def __init__(self, scenario: Dict[str, Any]) -> None:
+        # the record is shared mutable state hashed by identity: pin the identity-hash seam so that one
+        # scenario is one exactly repeatable execution whatever the memory layout of this process
+        from sim.world import idhash
+        idhash.install(int(scenario.get("salt", 0)))
         self.sc = scenario
         self.length = int(scenario["length"])
         self.circular = bool(scenario["circular"])
